@@ -727,7 +727,7 @@ def check_history(path, log_entries, cs, nobj, pick, probes):
         _ = (np, asms)
 
 
-def check_split(path, log_entries, scratch, pick, probes):
+def check_split(path, log_entries, scratch, pick, probes, cs=None):
     """Oracle 5: splitDatabase keeps exactly the requested steps, renumbered, backup == original."""
     import shutil
 
@@ -772,6 +772,15 @@ def check_split(path, log_entries, scratch, pick, probes):
             b = _hash_without(bk[nm], "Reactor/cycle")
             if a != b:
                 raise OracleFailure("C06.split", f"split snapshot {new} differs from source {nm} beyond the cycle renumbering", {"what": "split-content"})
+    # the split file answers history queries under the steps it lists
+    with Database(work, "r") as sdb:
+        listed = sorted((int(c), int(n)) for c, n in sdb.genTimeSteps())
+        c0, n0 = listed[-1]
+        rr = sdb.load(c0, n0, cs=cs, allowMissing=True)
+        hh = sdb.getHistories([rr.core], ["vSent"])
+        keys = sorted((int(a), int(b)) for a, b in hh[rr.core]["vSent"].keys())
+        if keys != listed:
+            raise OracleFailure("C06.split", f"the split file lists the steps {listed}, a history query on it answers for the steps {keys}", {"what": "split-history-keys"})
     probes["split_checked"] += 1
 
 
@@ -1014,7 +1023,7 @@ def execute(plan):
         if final_path and os.path.exists(final_path):
             check_history(final_path, final_log, final_cs, rd.get("hist_objs", 1), rd.get("pick", 0), probes)
             if rd.get("split"):
-                check_split(final_path, final_log, scratch, rd.get("pick", 0), probes)
+                check_split(final_path, final_log, scratch, rd.get("pick", 0), probes, final_cs)
         for k, v in simos.stats.items():
             stats["fs_" + k] = v
         for k, v in d.fired.items():
